@@ -214,6 +214,21 @@ def run(ctx):
         ctx.ob("C20.nullmap-some", reach_pan == 0, "the unreachable!() of the parameter iterator lies on %d feasible enumerated paths" % reach_pan, fn=nxt.path,
                construct="unreachable", sample={"rule": "nullmap-some", "paths": npaths})
 
+        # ---- iterator progress: a shim looping over the parameters must terminate ---------------------
+        from engines.prog import place_fields
+        ctx.rule("C20.iterator-progress", "every Some(..) of the parameter iterator advances the column index (a `for p in params` loop in the shim terminates)")
+        nsome = 0
+        for p in enumerate_paths(nxt, max_visits=2):
+            if p.end != "return":
+                continue
+            rv = p.return_value()
+            if rv[0] == "agg" and rv[3] == "Some":
+                nsome += 1
+                adv = sum(1 for blk in p.blocks for s_ in nxt.blocks[blk]["stmts"] if s_["k"] == "assign" and place_fields(s_["lhs"]) == ["col"])
+                ctx.ob("C20.iterator-progress", adv >= 1, "the parameter iterator yields a value without advancing: a shim iterating the parameters never returns (connection wedged)",
+                       fn=nxt.path, construct="advance", where=nxt.where(p.blocks[-1]))
+        ctx.floor("C20.iterator-progress", "yielding paths of the parameter iterator (%s)" % cfg, nsome, 3)
+
         # ---- loop progress ------------------------------------------------------------------------
         nloops = 0
         for path in sorted(fns):
